@@ -6,7 +6,7 @@ ID = "C15"
 REQUIRED_THEOREMS = ["write_is_function", "comparison_in_namespace", "condition_in_namespace", "anded_in_namespace",
                      "ored_in_namespace", "criterion_in_namespace", "parameter_in_namespace", "calibrator_in_namespace",
                      "context_calibrator_in_namespace", "encoding_in_namespace", "ptype_in_namespace",
-                     "container_in_namespace", "document_in_namespace", "fixpoint", "every_further_cycle"]
+                     "container_in_namespace", "document_in_namespace", "fixpoint", "every_further_cycle", "every_further_cycle_main"]
 RULE = ("the same requests as C09 (`cyclexml`, `cycleobj`); the implementation side additionally writes every definition "
         "twice with a fixed header date and compares bytes, compares the bytes of G2 and G3 (and of G1 and G2 when the definition was loaded from a document: G1 is then the document after one cycle), checks that every element of G1 "
         "lies in the definition's XTCE namespace and that writing did not alter the definition (structural snapshot); "
